@@ -218,7 +218,9 @@ def main(eng) -> int:
         except Exception as e:  # dead / hung worker, broken pool
             harness_fail = f"worker pool failure: {type(e).__name__}: {e}"
         finally:
-            ex.shutdown(wait=False, cancel_futures=True)
+            # a clean batch waits for the (idle) workers to exit, so that no pool thread is left to the interpreter's exit
+            # hooks (it printed "Exception ignored ... Bad file descriptor" now and then); a failed pool is abandoned
+            ex.shutdown(wait=harness_fail is None, cancel_futures=True)
 
     if harness_fail or total["harness_errors"]:
         print(f"HARNESS-ERROR property={eng.PROPERTY}: {harness_fail or ''}")
